@@ -1,6 +1,6 @@
 """C14 — cycles through a function without recovery panic instead of hanging."""
 from checks_path import *  # noqa
-from cycle_common import run_cycle
+from cycle_common import run_cycle, compare_cycle_rev
 from conc_common import run_conc
 from seq_common import replay_seq
 
@@ -21,7 +21,7 @@ ASSUMPTIONS = ['whether a no-recovery node on a MIXED cycle is re-entered depend
 def ties(ctx):
     n = 8000 if ctx.tier == "quick" else 150000
     m = 150 if ctx.tier == 'quick' else 4000
-    return [run_cycle(ctx, n, known_keys=KNOWN, flavours='2,0', seed_offset=2), run_conc(ctx, 'c14', 'threads', m, drivers=('dg',))]
+    return [compare_cycle_rev(ctx, run_cycle(ctx, n, known_keys=KNOWN, flavours='2,0', seed_offset=2), 'cycle'), run_conc(ctx, 'c14', 'threads', m, drivers=('dg',))]
 
 def search(ctx, reason):
     t = run_cycle(ctx, 200000, known_keys=KNOWN, flavours='2,0', seed_offset=98, tag='search-cycle')
